@@ -20,7 +20,7 @@ run_demo() {
         TESTNAME=$(python3 -c "import json;print(json.load(open('$DIR/meta.json'))['demo'].get('filter','seed_demo'))")
         (cd "$WT" && cargo test --offline -p "$CRATE" --lib "$TESTNAME" 2>&1 | grep -E "^test |test result|panicked" | head -20)
     else
-        cp "$DIR/demo.rs" "$WT/$CRATE/tests/seed_demo.rs"
+        mkdir -p "$WT/$CRATE/tests"; cp "$DIR/demo.rs" "$WT/$CRATE/tests/seed_demo.rs"
         (cd "$WT" && cargo test --offline -p "$CRATE" --test seed_demo 2>&1 | grep -E "^test |test result|panicked|error" | head -20)
     fi
 }
